@@ -94,11 +94,10 @@ func checkArbitrary(t fataler, data []byte, which int) []string {
 			if len(hdr.Payload()) != 0 {
 				t.Fatalf("ExtractHeaderAndPayload: header object carries payload")
 			}
-			hb := hdr.Marshal()
-			var again object.Object
-			if e := again.Unmarshal(hb); e != nil || !bytes.Equal(again.Marshal(), hb) {
-				t.Fatalf("ExtractHeaderAndPayload: returned header does not survive Marshal/Unmarshal: %v", e)
-			}
+			// (Not asserted: that the returned header survives Marshal/Unmarshal. The SDK codec
+			// itself is not idempotent on damaged input - e.g. a session token with an empty
+			// lifetime message decodes but is re-encoded without it - and that is the same for
+			// full decoding, so it says nothing about fast-path agreement.)
 		} else {
 			labels = append(labels, "extract-err")
 			if hdr != nil || rest != nil {
